@@ -85,10 +85,15 @@ fn tracker_visit_macro<'a>(
         // side of assuming caller is there.
         state.assign("caller");
     }
-    m.args.iter().for_each(|arg| track_assign(arg, state));
-    m.defaults
-        .iter()
-        .for_each(|expr| tracker_visit_expr(expr, state));
+    // arguments are bound back to front and a default is evaluated right
+    // before its argument is bound, so it only sees the arguments after it.
+    let mut defaults = m.defaults.iter().rev();
+    for arg in m.args.iter().rev() {
+        if let Some(expr) = defaults.next() {
+            tracker_visit_expr(expr, state);
+        }
+        track_assign(arg, state);
+    }
     m.body.iter().for_each(|node| track_walk(node, state));
 }
 
@@ -99,6 +104,18 @@ fn tracker_visit_callarg<'a>(callarg: &ast::CallArg<'a>, state: &mut AssignmentT
         | ast::CallArg::PosSplat(expr)
         | ast::CallArg::KwargSplat(expr) => tracker_visit_expr(expr, state),
     }
+}
+
+fn tracker_visit_call<'a>(call: &ast::Call<'a>, state: &mut AssignmentTracker<'a>) {
+    match call.identify_call() {
+        // `self.block_name()` renders a block, it does not look up `self`.
+        #[cfg(feature = "multi_template")]
+        ast::CallType::Block(_) => {}
+        _ => tracker_visit_expr(&call.expr, state),
+    }
+    call.args
+        .iter()
+        .for_each(|x| tracker_visit_callarg(x, state));
 }
 
 fn tracker_visit_expr<'a>(expr: &ast::Expr<'a>, state: &mut AssignmentTracker<'a>) {
@@ -181,16 +198,12 @@ fn tracker_visit_expr<'a>(expr: &ast::Expr<'a>, state: &mut AssignmentTracker<'a
             tracker_visit_expr(&expr.subscript_expr, state);
         }
         ast::Expr::Slice(slice) => {
+            tracker_visit_expr(&slice.expr, state);
             tracker_visit_expr_opt(&slice.start, state);
             tracker_visit_expr_opt(&slice.stop, state);
             tracker_visit_expr_opt(&slice.step, state);
         }
-        ast::Expr::Call(expr) => {
-            tracker_visit_expr(&expr.expr, state);
-            expr.args
-                .iter()
-                .for_each(|x| tracker_visit_callarg(x, state));
-        }
+        ast::Expr::Call(expr) => tracker_visit_call(expr, state),
         ast::Expr::List(expr) => expr.items.iter().for_each(|x| tracker_visit_expr(x, state)),
         ast::Expr::Tuple(expr) => expr.items.iter().for_each(|x| tracker_visit_expr(x, state)),
         ast::Expr::Map(expr) => expr.keys.iter().zip(expr.values.iter()).for_each(|(k, v)| {
@@ -205,6 +218,8 @@ fn track_assign<'a>(expr: &ast::Expr<'a>, state: &mut AssignmentTracker<'a>) {
         ast::Expr::Var(var) => state.assign(var.id),
         ast::Expr::List(list) => list.items.iter().for_each(|x| track_assign(x, state)),
         ast::Expr::Tuple(tuple) => tuple.items.iter().for_each(|x| track_assign(x, state)),
+        // `set ns.attr = ...` looks up the namespace, it does not assign a name
+        ast::Expr::GetAttr(attr) => tracker_visit_expr(&attr.expr, state),
         _ => {}
     }
 }
@@ -212,17 +227,18 @@ fn track_assign<'a>(expr: &ast::Expr<'a>, state: &mut AssignmentTracker<'a>) {
 fn track_walk<'a>(node: &ast::Stmt<'a>, state: &mut AssignmentTracker<'a>) {
     match node {
         ast::Stmt::Template(stmt) => {
-            state.assign("self");
             stmt.children.iter().for_each(|x| track_walk(x, state));
         }
         ast::Stmt::EmitExpr(expr) => tracker_visit_expr(&expr.expr, state),
         ast::Stmt::EmitRaw(_) => {}
         ast::Stmt::ForLoop(stmt) => {
+            // the iterable is evaluated outside of the loop and the filter
+            // runs before the special `loop` variable exists.
             state.push();
-            state.assign("loop");
             tracker_visit_expr(&stmt.iter, state);
             track_assign(&stmt.target, state);
             tracker_visit_expr_opt(&stmt.filter_expr, state);
+            state.assign("loop");
             stmt.body.iter().for_each(|x| track_walk(x, state));
             state.pop();
             state.push();
@@ -241,17 +257,18 @@ fn track_walk<'a>(node: &ast::Stmt<'a>, state: &mut AssignmentTracker<'a>) {
         ast::Stmt::WithBlock(stmt) => {
             state.push();
             for (target, expr) in &stmt.assignments {
-                track_assign(target, state);
                 tracker_visit_expr(expr, state);
+                track_assign(target, state);
             }
             stmt.body.iter().for_each(|x| track_walk(x, state));
             state.pop();
         }
         ast::Stmt::Set(stmt) => {
-            track_assign(&stmt.target, state);
             tracker_visit_expr(&stmt.expr, state);
+            track_assign(&stmt.target, state);
         }
         ast::Stmt::AutoEscape(stmt) => {
+            tracker_visit_expr(&stmt.enabled, state);
             state.push();
             stmt.body.iter().for_each(|x| track_walk(x, state));
             state.pop();
@@ -260,12 +277,14 @@ fn track_walk<'a>(node: &ast::Stmt<'a>, state: &mut AssignmentTracker<'a>) {
             state.push();
             stmt.body.iter().for_each(|x| track_walk(x, state));
             state.pop();
+            tracker_visit_expr(&stmt.filter, state);
         }
         ast::Stmt::SetBlock(stmt) => {
-            track_assign(&stmt.target, state);
             state.push();
             stmt.body.iter().for_each(|x| track_walk(x, state));
             state.pop();
+            tracker_visit_expr_opt(&stmt.filter, state);
+            track_assign(&stmt.target, state);
         }
         #[cfg(feature = "multi_template")]
         ast::Stmt::Block(stmt) => {
@@ -293,23 +312,60 @@ fn track_walk<'a>(node: &ast::Stmt<'a>, state: &mut AssignmentTracker<'a>) {
         }
         #[cfg(feature = "macros")]
         ast::Stmt::CallBlock(stmt) => {
-            tracker_visit_expr(&stmt.call.expr, state);
-            stmt.call
-                .args
-                .iter()
-                .for_each(|x| tracker_visit_callarg(x, state));
+            tracker_visit_call(&stmt.call, state);
             state.push();
             tracker_visit_macro(&stmt.macro_decl, state, true);
             state.pop();
         }
         #[cfg(feature = "loop_controls")]
         ast::Stmt::Continue(_) | ast::Stmt::Break(_) => {}
-        ast::Stmt::Do(stmt) => {
-            tracker_visit_expr(&stmt.call.expr, state);
-            stmt.call
-                .args
-                .iter()
-                .for_each(|x| tracker_visit_callarg(x, state));
-        }
+        ast::Stmt::Do(stmt) => tracker_visit_call(&stmt.call, state),
+    }
+}
+
+#[cfg(test)]
+mod tests {
+    use super::find_undeclared;
+    use crate::compiler::parser::parse;
+
+    fn undeclared(source: &str) -> Vec<String> {
+        let ast = parse(source, "<test>", Default::default(), Default::default()).unwrap();
+        let mut rv: Vec<_> = find_undeclared(&ast, false).into_iter().collect();
+        rv.sort();
+        rv
+    }
+
+    #[test]
+    fn test_lookups_before_assignment() {
+        assert_eq!(undeclared("{% set x = x %}{{ x }}"), ["x"]);
+        assert_eq!(undeclared("{% set x %}{{ x }}{% endset %}"), ["x"]);
+        assert_eq!(undeclared("{% with a = a, b = a %}{{ b }}{% endwith %}"), ["a"]);
+        assert_eq!(undeclared("{% for x in loop %}{{ loop.index }}{% endfor %}"), ["loop"]);
+        assert_eq!(undeclared("{% for x in [1] if loop %}{{ x }}{% endfor %}"), ["loop"]);
+        assert_eq!(undeclared("{% set ns.attr = 1 %}"), ["ns"]);
+        assert_eq!(undeclared("{{ self }}"), ["self"]);
+    }
+
+    #[test]
+    fn test_all_subexpressions_are_visited() {
+        assert_eq!(undeclared("{{ foo[a:b:c] }}"), ["a", "b", "c", "foo"]);
+        assert_eq!(undeclared("{% autoescape flag %}{% endautoescape %}"), ["flag"]);
+        assert_eq!(undeclared("{% set y | f(q) %}{% endset %}{{ y }}"), ["q"]);
+        assert_eq!(undeclared("{% filter f(q) %}{% endfilter %}"), ["q"]);
+    }
+
+    #[test]
+    #[cfg(feature = "macros")]
+    fn test_macro_defaults_see_later_arguments_only() {
+        assert_eq!(
+            undeclared("{% macro m(a=b, b=a) %}{{ a }}{{ b }}{% endmacro %}"),
+            ["a"]
+        );
+    }
+
+    #[test]
+    #[cfg(feature = "multi_template")]
+    fn test_self_block_call_is_not_a_lookup() {
+        assert!(undeclared("{% block x %}{% endblock %}{{ self.x() }}").is_empty());
     }
 }
